@@ -356,15 +356,15 @@ where
     }
 
     fn push(&mut self, pos: usize, token: T) {
-        if token.text() == "-" || is_whitespace(token.text()) {
-            return;
-        }
         if token.not_a_number_part() {
             if self.parser.has_number() {
                 self.number_end()
             }
             self.outside_number(&token);
             self.previous.replace(token);
+            return;
+        }
+        if token.text() == "-" || is_whitespace(token.text()) {
             return;
         }
         let lo_token = token.text_lowercase();
